@@ -36,7 +36,7 @@ impl Monitor for C13 {
     }
     fn plan(&self, tier: Tier) -> Vec<String> {
         let mut v: Vec<String> = (0..20).map(|i| format!("cat:{i}")).collect();
-        for i in 0..tier.pick(700, 40_000) {
+        for i in 0..tier.pick(2000, 40_000) {
             v.push(format!("rnd:{i}"));
         }
         v
